@@ -27,10 +27,52 @@ def gotest(pkg, test, extra=None):
     return cmd
 
 
+def seqtest(extra_env=None):
+    def cmd(t):
+        return ["go1.26.8", "test", "-count=1", "-vet=off", "-timeout", "170m", "-overlay", "overlay/exports.json", "-run", "^TestSeq$", "./seq"]
+    return dict(name="seq", cmd=cmd, timeout=dict(quick=900, thorough=7200), replayable=True, env=extra_env or {})
+
+
+SEQ = seqtest()
+M2_TRUST = ["M2 (lean/Ldlm/Model/Core.lean) is a hand-written sequential model of server.go + lock/*.go + timermap.go + session.go; x/sync semaphore (unit weights), time.AfterFunc/Timer, context cancellation and uuid freshness (KeysInjective) are modelled, not verified",
+            "tie: random state-aware histories in virtual time (testing/synctest), canonical per-operation snapshots (response, listing, lock table via overlay accessors, decoded state file, timer keys, blocked calls) compared channel by channel; ties between order-sensitive timer events are detected by the model and the history is cut there"]
 CODEC = dict(name="codec", cmd=gotest("codec", "TestCodec"), timeout=dict(quick=900, thorough=3600))
 
 P = "Ldlm.Props."
 PROPS = {
+    "C01": dict(
+        modules=[P + "C01"],
+        theorems=[P + "C01." + t for t in ("capacity", "mutual_exclusion", "capacity_sharded", "waiter_implies_full")]
+                 + ["Ldlm.Core.run_lockInv", "Ldlm.Core.shardedOps_lawful", "Ldlm.Core.flatOps_lawful"],
+        streams=[SEQ],
+        level_text="Sequential half: for EVERY operation sequence (grants, unlocks, renews, lease expiries, wait time-outs, session ends, GC passes, restarts, admin unlocks) and every lawful lock-table representation (sharded with any hash/shard count) the model never holds more keys than the size: proved by induction over operations, no bound. Tied to the code by seqdiff (lock-table channel) and a direct monitor on the implementation's table. Interleavings (schedules) are NOT yet covered by a theorem in this revision; see level_note.",
+        level_note="PARTIAL in this revision: the schedule quantifier (concurrent requests / GC / timers) is not yet covered: the interleaved table model M1 and its concdiff tie are work in progress (DESIGN §4 M1). Known on the tree: GC racing an acquisition can double-grant (D8) — to be flagged by the concurrent check. Trusted: Lean kernel, hand-written M2 + differential tie, synctest clock.",
+        technique="Lean 4 proof (inductive invariant over all operation sequences, generic in the table representation) + sequential differential correspondence",
+        trusted=M2_TRUST,
+    ),
+    "C07": dict(
+        modules=[P + "C07"],
+        theorems=[P + "C07." + t for t in ("failed_inert", "timerKey_injective", "unlock_frame_locks", "renew_frame", "waitTimeout_frame")]
+                 + ["Ldlm.Core.step_inv", "Ldlm.Core.inv_blocks", "Ldlm.Core.init_inv'"],
+        status={"Ldlm.Core.step_inv": "reachability: invariant preserved by every operation (restart: hypothesis hr, proved separately when CoreRestart is present)"},
+        streams=[SEQ],
+        level_text="For every state satisfying the reachability invariant and every Lock/TryLock/Unlock/Renew/admin-unlock request that answers with an error, sizes, key lists, waiter queues, lease timers, session table, state file and blocked calls are proved unchanged (idle clock and key counter excluded and named); the lease-timer key is proved injective on byte strings, and Unlock/Renew are proved to leave other locks / other pairs' leases alone. Tied to the code by seqdiff over adversarial name/key alphabets (a, ab, b+K, …) with a model-independent 'snapshot before = snapshot after' monitor.",
+        level_note="The invariant is proved preserved by every operation except restart, for which preservation is an explicit hypothesis (hr) until Proofs/CoreRestart lands; failed_inert itself is per-state. Trusted: Lean kernel, hand-written M2, uuid freshness (KeysInjective), the differential tie. D1 (timer-key collision) was found by this check on the original tree and repaired (fix: commit bb3b219).",
+        technique="Lean 4 proof (per-step case analysis under an inductive invariant; injectivity of the timer-key encoding) + sequential differential correspondence + before/after monitor",
+        trusted=M2_TRUST,
+    ),
+    "C08": dict(
+        modules=[P + "C08"],
+        theorems=[P + "C08." + t for t in ("listed_is_held", "held_is_listed_partial", "views_agree_partial", "listing_unique", "file_is_listing", "file_decodes", "noclear_views_differ")]
+                 + ["Ldlm.Core.step_inv", "Ldlm.Core.inv_blocks"],
+        status={P + "C08.held_is_listed_partial": "partial (hypothesis noClear = false)", P + "C08.views_agree_partial": "partial (hypothesis noClear = false)",
+                P + "C08.noclear_views_differ": "refutation witness (K1)"},
+        streams=[SEQ],
+        level_text="Listing ⊆ table is proved for every reachable state and configuration; table ⊆ listing and hence the pointwise equivalence only with clearing on disconnect (with no-clear it is false of the code: known finding K1, kernel-checked counterexample). File = session table up to hold-less new sessions is proved; the file bytes decode to that table by C17's round trip. Tied to the code by seqdiff carrying all three views (listing, decoded file through a second handle, lock table) after every operation, with foreign-session unlocks, both disconnect policies, restarts.",
+        level_note="Partial by K1 (no-clear-on-disconnect drops bookkeeping while capacity stays occupied). Invariant preservation by restart is hypothesis hr until Proofs/CoreRestart lands. D2 (foreign-session unlock left the hold listed) was found by this check and repaired (fix: commit e6a606e). Trusted: Lean kernel, hand-written M2, the differential tie.",
+        technique="Lean 4 proof (pointwise inductive invariant booked⇔held, bookkeeping uniqueness, file/session relation) + three-view sequential differential correspondence",
+        trusted=M2_TRUST,
+    ),
     "C17": dict(
         modules=[P + "C17"],
         theorems=[P + "C17." + t for t in (
@@ -54,5 +96,6 @@ NOT_CLAIMED = {}
 ENGINES = [
     dict(name="lean", path="/verif/lean", serves_properties=sorted(PROPS), kind_free_text="Lean 4 project: models (Ldlm/Model), proofs (Ldlm/Proofs), property theorems (Ldlm/Props), compiled line-protocol model driver"),
     dict(name="codec", path="/verif/harness/codec", serves_properties=["C17"], kind_free_text="byte-level differential of store.Write/Read against the Lean codec model"),
+    dict(name="seq", path="/verif/harness/seq", serves_properties=["C01", "C03", "C04", "C07", "C08", "C10", "C12", "C13", "C18"], kind_free_text="sequential histories in virtual time: real LockServer (testing/synctest) vs Lean model M2 through the line protocol, plus model-independent monitors"),
 ]
 NOTES = "Every check = Lean proof obligations about a model + a correspondence run that ties the model to /repo's working tree. See DESIGN.md."
